@@ -114,7 +114,11 @@ def ForAllRange(lo, hi, f, hint="q"):
     return z3.ForAll([i], z3.Implies(z3.And(i >= lo, i < hi), _b(f(i))))
 
 
-def ExistsRange(lo, hi, f, hint="x"):
+def ExistsRange(lo, hi, f, hint="x", witness=None):
+    """exists i in [lo,hi): f(i).  With a ``witness`` term (ghost loop index) the stronger statement f(witness) is
+    proved instead of leaving the existential to the solver."""
+    if witness is not None and _sym(witness):
+        return And(witness >= lo, witness < hi, f(witness))
     if not _sym(lo, hi):
         parts = [f(i) for i in range(lo, hi)]
         return Or(*parts) if parts else False
@@ -218,12 +222,30 @@ class Case:
     scope = ""  # description of the bound when ``domain`` is given
     proved = True  # False => bounded only (never counted as proved)
     axioms = None
+    native = True  # False: the function is not reachable natively (nested function): no replay / cross-check
     ground = None  # optional: callable() -> iterable of primitive dicts: a complete finite domain
     known = {}  # label -> {"id":..., "carve": lambda inp: cond}  known-finding carve-outs
     timeout_ms = 10000
 
     def inputs(self, S):  # pragma: no cover
         raise NotImplementedError
+
+
+class LoopSpec:
+    """Contract for one loop of a function: variable sorts for the havoc and the inductive invariant.
+
+    ``inv(ns, k)`` receives a namespace of the loop-carried variables (by name) and the number ``k`` of iterations
+    completed; ``vars`` maps variable name -> sort ('int' | 'bool' | 'optint' | 'intlist' | 'pairlist' | callable)."""
+
+    def __init__(self, vars, inv, label="", decreases=None, hints=None):
+        self.vars = vars
+        self.inv = inv
+        self.label = label
+        # hints(interp, ns, k, frame): INSTANCES of already assumed spec-function axioms (built only with the
+        # instance constructors of the contract library, e.g. CompoundView.unfold / mono); assumed at the loop head
+        # to guide quantifier instantiation.  They follow from the axioms by universal instantiation.
+        self.hints = hints
+
 
 
 REGISTRY = []
